@@ -2050,7 +2050,7 @@ impl<Target> StaticCompressor<Target> {
 
     /// Inserts the position of a new domain name if possible.
     fn insert(&mut self, pos: usize) -> bool {
-        if pos < 0xc000 && self.len < self.entries.len() {
+        if pos < 0x4000 && self.len < self.entries.len() {
             self.entries[self.len] = pos as u16;
             self.len += 1;
             true
@@ -2133,7 +2133,7 @@ impl<Target: Composer> Composer for StaticCompressor<Target> {
 impl<Target: Truncate> Truncate for StaticCompressor<Target> {
     fn truncate(&mut self, len: usize) {
         self.target.truncate(len);
-        if len < 0xC000 {
+        if len < 0x4000 {
             let len = len as u16;
             for i in 0..self.len {
                 if self.entries[i] >= len {
@@ -2264,7 +2264,7 @@ impl<Target> TreeCompressor<Target> {
         name: N,
         pos: usize,
     ) -> bool {
-        if pos >= 0xC000 {
+        if pos >= 0x4000 {
             return false;
         }
         let pos = pos as u16;
@@ -2361,7 +2361,7 @@ impl<Target: Composer> Composer for TreeCompressor<Target> {
 impl<Target: Composer> Truncate for TreeCompressor<Target> {
     fn truncate(&mut self, len: usize) {
         self.target.truncate(len);
-        if len < 0xC000 {
+        if len < 0x4000 {
             self.start.drop_above(len as u16)
         }
     }
@@ -2457,7 +2457,7 @@ struct HashEntry {
 impl HashEntry {
     /// Try constructing a [`HashEntry`].
     fn new(head: usize, tail: usize) -> Option<Self> {
-        if head < 0xC000 {
+        if head < 0x4000 {
             Some(Self {
                 head: head as u16,
                 tail: tail as u16,
@@ -2600,7 +2600,7 @@ impl<Target: Composer> Composer for HashCompressor<Target> {
 
             // Remember this label for future compression, if possible.
             //
-            // If some labels in this name pass the 0xC000 boundary point, then
+            // If some labels in this name pass the 0x4000 boundary point, then
             // none of its remembered labels can be used (since they are looked
             // up from right to left, and the rightmost ones will fail first).
             // We could check more thoroughly for this, but it's not worth it.
@@ -2636,7 +2636,7 @@ impl<Target: Composer> Composer for HashCompressor<Target> {
 impl<Target: Composer> Truncate for HashCompressor<Target> {
     fn truncate(&mut self, len: usize) {
         self.target.truncate(len);
-        if len < 0xC000 {
+        if len < 0x4000 {
             self.names.retain(|name| name.head < len as u16);
         }
     }
